@@ -90,10 +90,31 @@ def build(src_lines, tag):
     src = ["from dataclasses import dataclass, field", "from apischema import order, serialized", ""] + src_lines
     return build_module(src, tag)
 
+def enum_classes(start):
+    """every ordering specification over 3 elements (2 fields + 1 serialized method, and 3 fields): per element one of
+    none / order(-1) / order(1) / after each other element / before each other element"""
+    import itertools
+    out = []
+    for nf, nm in ((3, 0), (2, 1)):
+        names = [f"f{j}" for j in range(nf)] + [f"m{j}" for j in range(nm)]
+        opts = {n: [["none"], ["value", "-1"], ["value", "1"]] + [[k, o] for k in ("after", "before") for o in names if o != n] for n in names}
+        for combo in itertools.product(*(opts[n] for n in names)):
+            ords = dict(zip(names, combo)); cname = f"OE{start + len(out)}"
+            lines = ["@dataclass", f"class {cname}:"]
+            for n in names[:nf]:
+                src = ord_src(ords[n]); lines.append(f"    {n}: int = field(default=0" + (f", metadata={src})" if src else ")"))
+            for n in names[nf:]:
+                src = ord_src(ords[n]); lines += [f"    @serialized" + (f"(order={src})" if src else ""), f"    def {n}(self) -> int:", "        return 1"]
+            out.append((cname, lines, names, nf, ords, []))
+    return out
+
+
 def run(prop, seed, budget, ctx):
     driver_ok = ctx["driver_ok"]
     rnd = random.Random(seed); n = 300 * budget
     classes = [D.gen_class(rnd, i) for i in range(n)]
+    exhaustive = ctx.get("tier") == "thorough"
+    if exhaustive: classes += enum_classes(n)
     mod = build([l for c in classes for l in c[1] + [""]], f"o{seed}")
     reqs, meta = [], []
     for (cname, lines, names, nf, ords, ov) in classes:
@@ -118,7 +139,8 @@ def run(prop, seed, budget, ctx):
             "rule": "generated dataclasses (1-4 fields, 0-2 serialized methods, order value/after/before/overriding) x 4 views (serialize, both schemas, GraphQL object type); "
                     "non-trivial = at least one order() or overriding; distinct by (view, fields, orders)",
             "samples": [{k: meta[i][k] for k in ("class_src", "view", "real", "model")} for i in range(0, min(len(meta), 9), 3)],
-            "histograms": dict(hist), "failures": failures}
+            "histograms": dict(hist), "failures": failures,
+            "assumptions": (["thorough tier: every ordering specification over 3 elements (686 classes) enumerated completely, in addition to the generated ones"] if exhaustive else [])}
 
 def is_known(kid, case):
     """KF17: the model says `anchored = false`, the real code still matches the model, and what is lost is exactly that"""
